@@ -94,7 +94,7 @@ func (l *Loader) Load(path string) (*ResolvedJournal, []LoadError) {
 		}}
 	}
 
-	return l.loadWithContent(path, string(content), make(map[string]bool))
+	return l.loadWithContent(path, string(content), make(map[string]bool), 0)
 }
 
 func (l *Loader) LoadFromContent(path, content string) (*ResolvedJournal, []LoadError) {
@@ -106,20 +106,13 @@ func (l *Loader) LoadFromContent(path, content string) (*ResolvedJournal, []Load
 			Message: fmt.Sprintf("file too large: %d bytes (max %d)", len(content), limits.MaxFileSizeBytes),
 		}}
 	}
-	return l.loadWithContent(path, content, make(map[string]bool))
+	return l.loadWithContent(path, content, make(map[string]bool), 0)
 }
 
-func (l *Loader) loadWithContent(path, content string, visited map[string]bool) (*ResolvedJournal, []LoadError) {
+// loadWithContent loads the journal at path; depth is the number of include
+// directives between the root journal and path.
+func (l *Loader) loadWithContent(path, content string, visited map[string]bool, depth int) (*ResolvedJournal, []LoadError) {
 	var errors []LoadError
-	limits := l.getLimits()
-
-	if len(visited) >= limits.MaxIncludeDepth {
-		return nil, []LoadError{{
-			Kind:    ErrorCycleDetected,
-			Path:    path,
-			Message: fmt.Sprintf("include depth limit exceeded (%d)", limits.MaxIncludeDepth),
-		}}
-	}
 
 	journal, parseErrs := parser.Parse(content)
 	for _, e := range parseErrs {
@@ -156,7 +149,7 @@ func (l *Loader) loadWithContent(path, content string, visited map[string]bool) 
 			}
 
 			for _, matchPath := range matches {
-				subErrors := l.loadSingleInclude(path, matchPath, inc.Range, visited, result)
+				subErrors := l.loadSingleInclude(path, matchPath, inc.Range, visited, depth, result)
 				errors = append(errors, subErrors...)
 			}
 			continue
@@ -173,7 +166,7 @@ func (l *Loader) loadWithContent(path, content string, visited map[string]bool) 
 			continue
 		}
 
-		subErrors := l.loadSingleInclude(path, includePath, inc.Range, visited, result)
+		subErrors := l.loadSingleInclude(path, includePath, inc.Range, visited, depth, result)
 		errors = append(errors, subErrors...)
 	}
 
@@ -184,6 +177,7 @@ func (l *Loader) loadSingleInclude(
 	basePath, includePath string,
 	incRange ast.Range,
 	visited map[string]bool,
+	depth int,
 	result *ResolvedJournal,
 ) []LoadError {
 	var errors []LoadError
@@ -245,7 +239,19 @@ func (l *Loader) loadSingleInclude(
 		return errors
 	}
 
-	subResult, subErrors := l.loadWithContent(includePath, string(incContent), visited)
+	// The limit bounds the length of a chain of includes, not the number of files:
+	// a journal may include any number of files side by side.
+	if depth+1 >= limits.MaxIncludeDepth {
+		errors = append(errors, LoadError{
+			Kind:    ErrorCycleDetected,
+			Path:    includePath,
+			Message: fmt.Sprintf("include depth limit exceeded (%d)", limits.MaxIncludeDepth),
+			Range:   incRange,
+		})
+		return errors
+	}
+
+	subResult, subErrors := l.loadWithContent(includePath, string(incContent), visited, depth+1)
 	errors = append(errors, subErrors...)
 
 	if subResult != nil && subResult.Primary != nil {
